@@ -233,6 +233,21 @@ def gen_design(rng, i: int, kind: str | None = None) -> dict | None:
                     d['pam'] = [e for e in (d.get('pam') or []) if e['pos'] not in cp]
                     d['pam'].append({'pos': q, 'ref': U[q - 1], 'alt': rng.choice([c for c in 'ACGT' if c != U[q - 1]]), 'sgrna': t0['sgrna'][0]})
                 break
+    elif kind == 'padded_syn':
+        # a synonymous substitution written with an unchanged leading base (CC>CT), or a phased record over two changed bases with an unchanged
+        # base (codon) between them: the codons whose bases stay the same are not amino-acid changes
+        x = snv_of('syn', [q for q in coding_pos if inex(q - 1) and fr.codon_positions(q - 1) and (q - 1) not in pam_pos and (q - 1) not in bounds and q not in bounds])
+        if x:
+            p, alt = x
+            far = [q for q in coding_pos if 3 <= q - p <= 5 and all(inex(y) and fr.codon_positions(y) and y not in pam_pos and y not in bounds for y in range(p, q + 1))
+                   and not (set(fr.codon_positions(q)) & set(fr.codon_positions(p)))]
+            y = snv_of('syn', far) if (far and rng.random() < 0.5) else None
+            if y:
+                q, alt2 = y
+                ref = U[p - 1:q]
+                ok = add({'pos': p, 'ref': ref, 'alts': [alt + ref[1:-1] + alt2]}, list(range(p, q + 1)))
+            else:
+                ok = add({'pos': p - 1, 'ref': U[p - 2:p], 'alts': [U[p - 2] + alt]}, [p - 1, p])
     elif kind == 'del_by_pam':
         # an in-frame coding deletion inside the target region and a PAM edit of the targeton's guide one or two bases after it (or on the
         # base before it): with both force flags the design is valid, and the snv rows next to the deletion share a codon of the background
@@ -583,6 +598,7 @@ def run(ctx: Ctx):
     # a deliberate class (its own generator state, so that the designs above stay what they were): deletions next to a PAM edit
     import random
     explore(ctx, 'del_by_pam', ctx.n(24, 240), random.Random(f'C15-del-by-pam-{ctx.seed}'))
+    explore(ctx, 'padded_syn', ctx.n(24, 240), random.Random(f'C15-padded-syn-{ctx.seed}'))
     return {'rule': 'Random SGE designs with one background variant under study starting inside a targeton (synonymous / missense / '
                     'nonsense / stop-to-stop SNV, coding MNV, in-frame and frame-shifting coding indel, deletion reaching from an intron into '
                     'an exon, non-coding SNV/indel, PAM edit on a background-altered coding base) plus 0-3 unrelated non-coding indels of 1-7 '
